@@ -2,6 +2,7 @@ import Lean.Data.Json
 import GristModel.Doc
 import GristModel.Engine
 import GristModel.SchemaMeta
+import GristModel.MetaRefs
 open Lean
 namespace Grist.Driver.Engine
 open Grist.Doc
@@ -305,6 +306,25 @@ def handle (ds : DState) (j : Json) : DState × Except String Json :=
     | "schema_consistent" =>
       -- C08: the model's decision procedure evaluated on this session's document
       (ds, .ok (Json.mkObj [("consistent", Json.bool (schemaConsistentB (ds.doc sid)))]))
+    | "meta_refs" =>
+      -- C09: the decidable predicate on this session's document; specs = [[table, col, target, isList]..]
+      match j.getObjVal? "specs" >>= (·.getArr?) with
+      | .error e => (ds, .error e)
+      | .ok arr =>
+        let specs := arr.toList.filterMap (fun sj =>
+          match sj.getArr? with
+          | .ok a =>
+            match (a[0]?.getD Json.null).getStr?, (a[1]?.getD Json.null).getStr?, (a[2]?.getD Json.null).getStr? with
+            | .ok t, .ok c, .ok tg => some ({ table := t, col := c, target := tg, isList := boolish (a[3]?.getD Json.null) } : RefSpec)
+            | _, _, _ => none
+          | .error _ => none)
+        let d := ds.doc sid
+        let dang := match firstDangling d specs with
+          | some (t, c, r, k) => Json.arr #[Json.str t, Json.str c, toJson r, toJson k]
+          | none => Json.null
+        (ds, .ok (Json.mkObj [("refs", Json.bool (refsResolve d specs)), ("fields", Json.bool (fieldsMatchSection d)),
+                              ("tables", Json.bool (userTablesHaveRecords d)), ("helpers", Json.bool (helpersUsed d)),
+                              ("dangling", dang)]))
     | "apply" =>
       -- replica: apply a list of doc actions (stored of a bundle) with the data semantics only
       match j.getObjVal? "actions" >>= (·.getArr?) with
